@@ -7,10 +7,18 @@
      equals the number of logged discards in every reachable world) the counter is incremented
      exactly by the refused calls;
    * C03_discard_only_if: a reservation fails only if the record exceeds the capacity test
-     (er_size > packet_size - off_content) or right after is_backend_full answered true;
+     (er_size > packet_size - off_content), or right after is_backend_full answered true, or
+     (since the repair of S18: the assert became a discard) because the record does not fit the
+     packet just opened by the packet switch - an empty packet (position = off_content) in the
+     buffer the platform installed;
+   * C03_recheck_discard_only_if / C03_recheck_discards_iff (repair of S9): after a successful
+     reservation the tracing function abandons the record without error only when the reservation
+     moved the position (packet switch) and the record, sized again at the new position, does not
+     fit the space left in the packet; it is then discarded and counted exactly once (and
+     C03_at_most_one_discard still holds for the whole call: never both discards);
    * a recorded call is serialized exactly once, contiguously, inside the packet, ending at
-     start + size: C02_record_in_bounds_partial (under size_stable); what a CTF reader then finds
-     is C01_record_roundtrip (per record).
+     start + size: C02_record_in_bounds (no size_stable premise since the repairs); what a CTF
+     reader then finds is C01_record_roundtrip (per record).
    * C03_history (whole histories, Tracer/History*.v): for EVERY well-formed data stream type,
      oracle (platform behaviour: back end full answers, tracing toggled inside callbacks, buffers
      swapped) and history of calls that starts by opening the first packet and ends with no packet
@@ -22,12 +30,12 @@
      while tracing is disabled and every other call appends nothing and logs no discard.  No
      duplicate, no record split across packets, none outside a packet's content: the reader's record
      loop must end exactly at the content size of every packet.
-     Premises kept visible: no error flagged by the model (a store outside the buffer: known
-     findings S9 / S18), the position is inside the packet whenever the platform closes it
-     (`inb_run`, C02's conclusion - false only in the S9 / S18 histories), every event record
-     occupies at least one bit (S13), buffer sizes fit the content size field.
-   The capacity test uses the size at the current position, not at the empty-packet position:
-   known finding S9 (a record can be discarded although it fits an empty packet). *)
+     Premises kept visible: no error flagged by the model (a store outside the buffer; the
+     histories of the former findings S9 / S18 no longer flag one: both are repaired), the
+     position is inside the packet whenever the platform closes it (`inb_run`, C02's conclusion),
+     every event record occupies at least one bit (S13), buffer sizes fit the content size field.
+   The first capacity test still uses the size at the current position, not at the empty-packet
+   position (a record can be discarded although it would fit an empty packet). *)
 From Coq Require Import List Arith Bool ZArith String.
 Import ListNotations.
 From BT.Layout Require Import Model.
@@ -44,12 +52,42 @@ Theorem C03_reserve_discards_iff_fails :
 Proof. exact reserve_nd. Qed.
 Print Assumptions C03_reserve_discards_iff_fails.
 
+(* third case: w1 is the world after the closing callback of the packet switch, in which
+   is_backend_full answers "not full"; w' the world right after the open callback that follows; the
+   reservation ends with one discard logged after w'; the record does not fit w' and, inside a
+   tracing section (always the case in a tracing call), w' has a packet open and EMPTY *)
 Theorem C03_discard_only_if :
   forall d w n, fst (reserve d w n) = false ->
     gt_diff32 n (c_psize (w_c w)) (c_off_content (w_c w)) = true \/
-    exists l, w_log (snd (reserve d w n)) = l ++ [EAns true; EDisc].
+    (exists l, w_log (snd (reserve d w n)) = l ++ [EAns true; EDisc]) \/
+    (exists w1 w',
+        fst (full_cb w1) = false /\ w' = with_use_ts (open_cb d) (snd (full_cb w1)) /\
+        w_log (snd (reserve d w n)) = w_log w' ++ [EDisc] /\
+        gt_diff32 n (c_psize (w_c w')) (c_at (w_c w')) = true /\
+        (c_in_ts (w_c w) = true -> c_open (w_c w') = true /\ c_at (w_c w') = c_off_content (w_c w'))).
 Proof. exact reserve_false_reason. Qed.
 Print Assumptions C03_discard_only_if.
+
+(* Lemmas.trace_recheck d e args at0 w: the check the tracing function makes after a successful
+   reservation (at0: position before the reservation, w: world after it); false: the call ends *)
+Theorem C03_recheck_discard_only_if :
+  forall d e args at0 w,
+    fst (trace_recheck d e args at0 w) = false -> w_err (snd (trace_recheck d e args at0 w)) = false ->
+    c_at (w_c w) <> at0 /\
+    (exists a2, size_parts (rec_parts d e 0%Z args) (c_at (w_c w)) = Some a2 /\
+                gt_diff32 (a2 - c_at (w_c w)) (c_psize (w_c w)) (c_at (w_c w)) = true) /\
+    w_log (snd (trace_recheck d e args at0 w)) = w_log w ++ [EDisc] /\
+    c_disc (w_c (snd (trace_recheck d e args at0 w))) = S (c_disc (w_c w)) /\
+    c_in_ts (w_c (snd (trace_recheck d e args at0 w))) = false.
+Proof. exact recheck_false_reason. Qed.
+Print Assumptions C03_recheck_discard_only_if.
+
+Theorem C03_recheck_discards_iff :
+  forall d e args at0 w,
+    w_err (snd (trace_recheck d e args at0 w)) = false ->
+    nd w (snd (trace_recheck d e args at0 w)) (if fst (trace_recheck d e args at0 w) then 0 else 1).
+Proof. exact recheck_nd. Qed.
+Print Assumptions C03_recheck_discards_iff.
 
 (* non-vacuity: a run with one accepted and one discarded call (back end full when the second
    record needs a new packet) *)
@@ -57,6 +95,14 @@ Example C03_example :
   let w := run d_s18 16 [] [default_ans; default_ans; mk_ans true None None 1 false] 
                [COpen; CTrace 0 [VArr [VInt 1]]; CTrace 0 [VArr [VInt 2]]] in
   w_err w = false /\ c_disc (w_c w) = 1 /\ ndisc (w_log w) = 1.
+Proof. vm_compute. repeat split. Qed.
+
+(* non-vacuity of the two new discards: the former S9 history (record does not fit after the
+   switch: post-switch check) and the former S18 history (smaller buffer installed during the
+   switch: third case of C03_discard_only_if) end without error with exactly one discard *)
+Example C03_example_repaired :
+  (let w := run d_s9 21 [] [] h_s9 in w_err w = false /\ c_disc (w_c w) = 1 /\ ndisc (w_log w) = 1) /\
+  (let w := run d_s18 16 [] o_s18 h_s18 in w_err w = false /\ c_disc (w_c w) = 1 /\ ndisc (w_log w) = 1).
 Proof. vm_compute. repeat split. Qed.
 
 (* whole histories *)
